@@ -316,6 +316,16 @@ def fam_c08(R, n):
                     if not vs:
                         vs.append('#[token("zzzz")] Z,')
                     out.append(dict(family='c08-positions', src=enum(attrs, vs), meta=dict(leaves=None)))
+    # many patterns matching one string (fixed-size buffers, per-state lists): n bystanders at distinct lower priorities, then a
+    # tied pair at the top - first, last, or around the bystanders - and the same with the top unique
+    for nb in (15, 16, 17, 31, 33, 64, 65):
+        for where in ('last', 'first', 'around'):
+            for tied in (True, False):
+                by = [(False, 'x|q%d' % j, j + 1) for j in range(nb)]
+                a, b = (True, 'x', nb + 5), (False, '[x-z]', nb + 5 if tied else nb + 6)
+                leaves = by + [a, b] if where == 'last' else ([a, b] + by if where == 'first' else [a] + by + [b])
+                vs = ['#[%s(%s, priority = %d)] V%d,' % ('token' if t_ else 'regex', rust_str(p_), pr_, j) for j, (t_, p_, pr_) in enumerate(leaves)]
+                out.append(dict(family='c08-many', src=enum([], vs), meta=dict(leaves=leaves)))
     # enumerated: every look-around pattern of the pool against companions that match the same text and may go on
     # (the tie then exists only in some following contexts, and the ambiguous DFA state may still have outgoing edges)
     companions = ['a', 'a[a-z]*', 'a[a-zA-Z0-9_]*', 'ab', 'a+', '[a-z]+', 'a[a-z0-9_]{2,}', 'a-', 'a\\n?']
